@@ -358,17 +358,18 @@ func (c *Client) WaitServerClosed(d time.Duration) bool {
 
 // Pkt is the abstract form of a packet received by a client, as logged in traces.
 type Pkt struct {
-	T      string   `json:"t"`             // connack suback unsuback puback pub err resp pres other
-	Code   int      `json:"code"`          // connack / suback return code, error or response status
-	Ch     string   `json:"ch"`            // channel of a delivered message / presence event / response
-	P      string   `json:"p"`             // payload of a delivered message
-	Api    string   `json:"api"`           // emitter request name for responses
-	Ev     string   `json:"ev"`            // presence event
-	Who    []string `json:"who"`           // presence: connection ids (mapped to client names by the driver)
-	Users  []string `json:"users"`         // presence: usernames, aligned with Who
-	Name   string   `json:"name"`          // link response name
-	Key    string   `json:"key,omitempty"` // keygen response key
-	Retain bool     `json:"retain"`
+	Msgs   [][2]string // (history reply) channel, payload
+	T      string      `json:"t"`             // connack suback unsuback puback pub err resp pres other
+	Code   int         `json:"code"`          // connack / suback return code, error or response status
+	Ch     string      `json:"ch"`            // channel of a delivered message / presence event / response
+	P      string      `json:"p"`             // payload of a delivered message
+	Api    string      `json:"api"`           // emitter request name for responses
+	Ev     string      `json:"ev"`            // presence event
+	Who    []string    `json:"who"`           // presence: connection ids (mapped to client names by the driver)
+	Users  []string    `json:"users"`         // presence: usernames, aligned with Who
+	Name   string      `json:"name"`          // link response name
+	Key    string      `json:"key,omitempty"` // keygen response key
+	Retain bool        `json:"retain"`
 }
 
 // Abstract converts a received packet.
@@ -396,6 +397,10 @@ func Abstract(m mqtt.Message) Pkt {
 				Name    string          `json:"name"`
 				Key     string          `json:"key"`
 				Who     json.RawMessage `json:"who"`
+				Msgs    []struct {
+					Channel string `json:"channel"`
+					Payload []byte `json:"payload"`
+				} `json:"messages"`
 			}
 			if err := json.Unmarshal(p.Payload, &j); err == nil {
 				api := strings.TrimSuffix(strings.TrimPrefix(topic, "emitter/"), "/")
@@ -406,6 +411,13 @@ func Abstract(m mqtt.Message) Pkt {
 					var who struct{ ID, Username string }
 					json.Unmarshal(j.Who, &who)
 					return Pkt{T: "pres", Ev: j.Event, Ch: j.Channel, Who: []string{who.ID}, Users: []string{who.Username}}
+				}
+				if api == "history" && j.Status == 0 {
+					out := Pkt{T: "hist"}
+					for _, m := range j.Msgs {
+						out.Msgs = append(out.Msgs, [2]string{m.Channel, string(m.Payload)})
+					}
+					return out
 				}
 				out := Pkt{T: "resp", Api: api, Code: j.Status, Ch: j.Channel, Ev: j.Event, Name: j.Name, Key: j.Key}
 				if len(j.Who) > 0 && j.Who[0] == '[' {
